@@ -1,11 +1,11 @@
 #!/venv/bin/python
 # replay for obligation aioftp.server:stor_worker@appe::ThrottleStreamIO.__aexit__/no-wait-on-the-peer-after-cancellation:writer.wait_closed
-# path: conn.logged-present=T.conn.passive_server-present=T.wait_for-outcome=0.conn.user-present=T.conn.user-done=T.if@6=F.backend.is_dir-fault=0.if@25=T.conn.data_connection-present=T.cancel@wait_for(gather)=0.wait_for-outcome=0.conn.data_connection-done=T.if@3=T.cancel@backend._open=0.backend._open-fault=0.if@9=T.cancel@backend.seek=0.backend.seek-fault=0.cancel@reader.read=0.read-outcome=0.if@2=T.cancel@backend.write=1
+# path: conn.logged-present=T.conn.passive_server-present=T.wait_for-outcome=0.conn.user-present=T.conn.user-done=T.if@6=F.backend.is_dir-fault=0.if@25=T.conn.data_connection-present=T.wait_future_timeout-is-None=0.cancel@wait_for(gather)=0.wait_for-outcome=0.conn.data_connection-done=T.if@3=T.cancel@backend._open=0.backend._open-fault=0.if@9=T.cancel@backend.seek=0.backend.seek-fault=0.cancel@reader.read=0.read-outcome=0.if@2=T.cancel@backend.write=0.backend.write-fault=1.cancel@backend.close=1
 # run: AIOFTP_REPO=/repo /venv/bin/python /verif/replays/C12_aioftp.server_stor_worker_appe_ThrottleStreamIO.__aexit___no-wait-on-the-peer-after-cancellation_writer.wait_closed.py
 import os, sys
 sys.path.insert(0, os.path.join(os.environ.get("AIOFTP_REPO", "/repo"), "src"))
 OBLIGATION = 'aioftp.server:stor_worker@appe::ThrottleStreamIO.__aexit__/no-wait-on-the-peer-after-cancellation:writer.wait_closed'
-MODEL = {'block_size!0': 1, 'restart_offset!10': 1, 'data_connection_present!21': True, 'chunk!65': 'A', 'data_connection_done!22': True, 'rest!66': '', 'dc_accepted!42': False, 'dc_accepted!35': False, 'dc_accepted!39': False, 'dc_accepted!30': False, 'dc_accepted!34': False, 'dc_accepted!38': False, 'dc_accepted!29': False, 'user_present!11': True, 'incoming!57': 'A', 'user_done!12': True, 'current_directory_present!15': True, 'current_directory_done!16': True, 'passive_server_present!19': True, 'logged_present!13': True, 'passive_server_done!20': True, 'logged_done!14': True, 'fsbool!37': True, 'auth_ok!27': True, 'writable!33': True}
+MODEL = {'block_size!0': 1, 'data_connection_done!22': True, 'restart_offset!10': 1, 'chunk!70': 'A', 'rest!71': '', 'wait_future_timeout!41': '0/1', 'dc_accepted!38': True, 'dc_accepted!43': False, 'dc_accepted!39': False, 'dc_accepted!35': False, 'dc_accepted!30': False, 'dc_accepted!34': False, 'dc_accepted!29': False, 'data_connection_present!21': False, 'user_present!11': True, 'user_done!12': True, 'incoming!59': 'A', 'passive_server_done!20': True, 'logged_done!14': True, 'fsbool!37': True, 'writable!33': True, 'current_directory_present!15': True, 'current_directory_done!16': True, 'passive_server_present!19': True, 'consumed!60': '', 'incoming!23': 'A', 'logged_present!13': True, 'fileW!62': '', 'auth_ok!27': True}
 SOLVER_NOTE = ''
 
 print("obligation", OBLIGATION, "failed; no concrete failing input could be constructed automatically")
